@@ -9,7 +9,8 @@ From Coq Require Import ZArith List Bool Permutation.
 From Batchie Require Import Lib.Sexp Model.Encode Model.Screen Model.Retro Model.Pairwise Model.RetroInit
   Proofs.C11Lib Proofs.C11Select Proofs.C11Holdout Proofs.C13Filter Proofs.C13Optimal Proofs.C13Size
   Proofs.C13NPlate Proofs.C13SampleSeg Proofs.C13Shapes Proofs.C13MergeLib Proofs.C13TopBottom
-  Proofs.C13MergeMin Proofs.C13MergeShapes Proofs.C11Init Proofs.C13Sparse Proofs.C13Pairwise.
+  Proofs.C13MergeMin Proofs.C13MergeShapes Proofs.C11Init Proofs.C13Sparse Proofs.C13Pairwise
+  Proofs.C13SparseTerm.
 Import ListNotations.
 
 (* ---- sample-segregating generator ---- *)
@@ -65,6 +66,53 @@ Theorem C13_sparse_cover_covers : forall ctrl reveal rows ds out ds',
   map core out = map core rows.
 Proof. exact sparse_cover_covers. Qed.
 Print Assumptions C13_sparse_cover_covers.
+
+(* termination of the greedy cover.  [ndistinct l] = number of distinct treatment ids in l (None = the control
+   sentinel counts as one id); [sc_remaining ctrl rows chosen] = np.setdiff1d(screen.treatment_ids, covered);
+   [sc_offer_loop] / [sc_offer_sample] = the arrays handed to rng.choice.
+   State by state: while ids remain the array offered by the while loop is not empty, whichever element rng.choice
+   answers the number of distinct remaining ids strictly drops, and the per-sample arrays are not empty *)
+Theorem C13_sparse_cover_loop_progress : forall ctrl rows chosen,
+  (sc_remaining ctrl rows chosen <> [] -> sc_offer_loop ctrl rows chosen <> []) /\
+  (forall i, In i (sc_offer_loop ctrl rows chosen) ->
+     ndistinct (sc_remaining ctrl rows (chosen ++ [i])) < ndistinct (sc_remaining ctrl rows chosen)) /\
+  (forall s, In s (sample_names rows) -> sc_offer_sample ctrl rows s chosen <> []).
+Proof. exact sc_loop_progress. Qed.
+Print Assumptions C13_sparse_cover_loop_progress.
+
+(* whenever it returns: one answer per sample (used1), then at most as many while-loop iterations (used2, one answer
+   each) as there are distinct treatment ids not covered by the per-sample phase, which are at most the distinct
+   ids of the screen; the unused answers ds' are handed back *)
+Theorem C13_sparse_cover_iterations : forall ctrl reveal rows ds out ds',
+  sparse_cover ctrl reveal rows ds = Ok (out, ds') ->
+  exists chosen1 used1 used2,
+    ds = used1 ++ used2 ++ ds' /\
+    sc_samples ctrl rows (sample_names rows) [] ds = Ok (chosen1, used2 ++ ds') /\
+    length used1 = length (sample_names rows) /\
+    length used2 <= ndistinct (sc_remaining ctrl rows chosen1) /\
+    ndistinct (sc_remaining ctrl rows chosen1) <= ndistinct (all_tids ctrl rows).
+Proof. exact sparse_cover_iterations. Qed.
+Print Assumptions C13_sparse_cover_iterations.
+
+(* for every fully observed screen (the empty one included) and every answer stream that obeys numpy's choice
+   contract answer by answer ([sc_contract]: each answer asked for is one element of the array offered then) and
+   holds #samples + #distinct treatment ids answers, the function returns: it never runs out of answers, never
+   offers an empty array, and the final Screen(...) is accepted *)
+Theorem C13_sparse_cover_terminates : forall ctrl reveal rows ds,
+  forallb r_mask rows = true ->
+  sc_contract ctrl rows (sample_names rows) [] ds ->
+  length (sample_names rows) + ndistinct (all_tids ctrl rows) <= length ds ->
+  exists out ds', sparse_cover ctrl reveal rows ds = Ok (out, ds').
+Proof. exact sparse_cover_terminates. Qed.
+Print Assumptions C13_sparse_cover_terminates.
+
+(* ... having consumed between #samples and #samples + #distinct treatment ids answers *)
+Theorem C13_sparse_cover_consumes : forall ctrl reveal rows ds out ds',
+  sparse_cover ctrl reveal rows ds = Ok (out, ds') ->
+  exists used, ds = used ++ ds' /\
+    length (sample_names rows) <= length used <= length (sample_names rows) + ndistinct (all_tids ctrl rows).
+Proof. exact sparse_cover_consumes. Qed.
+Print Assumptions C13_sparse_cover_consumes.
 
 (* ---- combination filter ---- *)
 Theorem C13_combo_filter_exact : forall ctrl arity rows out,
@@ -209,6 +257,20 @@ Proof. vm_compute. reflexivity. Qed.
 (* an answer outside the offered array is refused *)
 Example C13_sparse_cover_bad_oracle : sparse_cover [] false w_sc [DInts [2]; DInts [2]] = Err 94%Z.
 Proof. vm_compute. reflexivity. Qed.
+
+(* termination, non-vacuity: 2 samples + 4 distinct ids (a, b, c, control) = 6 answers; rows 0 and 2 for the samples
+   leave the control id uncovered, the while loop is offered [1] only, answer 1 ends it; three answers are left *)
+Definition w_sc_stream : list draw := [DInts [0]; DInts [2]; DInts [1]; DInts [7]; DInts [7]; DInts [7]].
+Example C13_sparse_cover_contract_example :
+  forallb r_mask w_sc = true /\ sc_contract [] w_sc (sample_names w_sc) [] w_sc_stream /\
+  length (sample_names w_sc) + ndistinct (all_tids [] w_sc) = length w_sc_stream.
+Proof. vm_compute. tauto. Qed.
+Example C13_sparse_cover_terminates_example :
+  option_map (fun r => (map r_mask (fst r), snd r))
+    (match sparse_cover [] false w_sc w_sc_stream with Ok r => Some r | Err _ => None end)
+  = Some ([true; true; true], [DInts [7]; DInts [7]; DInts [7]]) /\
+  sc_offer_loop [] w_sc [0; 2] = [1] /\ ndistinct (sc_remaining [] w_sc [0; 2]) = 1.
+Proof. vm_compute. auto. Qed.
 
 (* the repaired logic on the same witnesses *)
 Example C13_sample_segregating_fixed_witness :
